@@ -9,25 +9,30 @@ Record irs_cfg := { irs_max_countries : nat;     (* MAX_COUNTRY_ENTRIES *)
                     irs_max_meta : N;            (* MAX_METADATA_ENTRIES *)
                     irs_max_meta_len : N }.      (* MAX_METADATA_STRING_LEN *)
 
-(* CountryData as built by the harness: Individual(Residence(code)) with metadata
-   None or Some(map of [entries] values, each of length [len]) *)
-Record cdata := { cd_code : N; cd_meta : option (N * N) }.
+(* CountryData as built by the harness: Individual(Residence(code)) with metadata None or
+   Some(map), the map printed in full as its (key, value) entries in map order (strings encoded
+   injectively, see str_len) *)
+Record cdata := { cd_code : N; cd_meta : option (list (N * N)) }.
+Definition meta_eqb : list (N * N) -> list (N * N) -> bool := list_eqb (pair_eqb N.eqb N.eqb).
+Lemma meta_eqb_spec : forall a b, meta_eqb a b = true <-> a = b.
+Proof. apply list_eqb_spec. apply pair_eqb_spec; apply N.eqb_eq. Qed.
 Definition cdata_eqb (a b : cdata) : bool :=
-  N.eqb (cd_code a) (cd_code b) && option_eqb (pair_eqb N.eqb N.eqb) (cd_meta a) (cd_meta b).
+  N.eqb (cd_code a) (cd_code b) && option_eqb meta_eqb (cd_meta a) (cd_meta b).
 Lemma cdata_eqb_spec a b : cdata_eqb a b = true <-> a = b.
 Proof.
   destruct a as [c1 m1], b as [c2 m2]. unfold cdata_eqb. cbn.
-  rewrite andb_true_iff, N.eqb_eq.
-  rewrite (option_eqb_spec (pair_eqb N.eqb N.eqb) (pair_eqb_spec N.eqb N.eqb N.eqb_eq N.eqb_eq)).
+  rewrite andb_true_iff, N.eqb_eq, (option_eqb_spec meta_eqb meta_eqb_spec).
   split; [intros [-> ->]; auto|intros H; inversion H; auto].
 Qed.
 
-(* validate_country_data *)
+(* validate_country_data: at most MAX_METADATA_ENTRIES entries, every value at most
+   MAX_METADATA_STRING_LEN bytes *)
 Definition cd_valid (c : irs_cfg) (d : cdata) : bool :=
   match cd_meta d with
   | None => true
-  | Some (entries, len) =>
-      (entries <=? irs_max_meta c)%N && ((entries =? 0)%N || (len <=? irs_max_meta_len c)%N)
+  | Some m =>
+      (N.of_nat (length m) <=? irs_max_meta c)%N
+      && forallb (fun kv => (str_len (snd kv) <=? irs_max_meta_len c)%N) m
   end.
 
 Notation profile := (N * list cdata)%type (only parsing).     (* identity type (0 individual, 1 organization), countries *)
